@@ -24,7 +24,13 @@ import (
 	"strings"
 )
 
-const repo = "/repo"
+// repo is the tree under test (VERIF_REPO lets a snapshot copy be checked side by side).
+var repo = func() string {
+	if r := os.Getenv("VERIF_REPO"); r != "" {
+		return r
+	}
+	return "/repo"
+}()
 
 func die(format string, args ...any) {
 	fmt.Fprintf(os.Stderr, "instrument error: "+format+"\n", args...)
